@@ -280,11 +280,11 @@ macro_rules! c26_harness {
     };
 }
 c26_harness!(c26_alloc_h1, check_alloc, 1);
-c26_harness!(c26_alloc_h2, check_alloc, 2);
+c26_harness!(c26_alloc_h2_deep, check_alloc, 2);
 c26_harness!(c26_alloc_from_unit_h1, check_alloc_from_unit, 1);
-c26_harness!(c26_alloc_from_unit_h2, check_alloc_from_unit, 2);
+c26_harness!(c26_alloc_from_unit_h2_deep, check_alloc_from_unit, 2);
 c26_harness!(c26_free_h1, check_free, 1);
-c26_harness!(c26_free_h2, check_free, 2);
+c26_harness!(c26_free_h2_deep, check_free, 2);
 c26_harness!(c26_boundary_flags_h1, check_boundary_flags, 1);
 
 /// Base case of the induction: the table built by the real constructor satisfies `wf`, and its runs are the
